@@ -217,9 +217,33 @@ func runC18(r *Run, p *Prog) {
 						sendConn = strip(T.T(recvOf(cs)))
 					}
 				}
+				// (the write may be in a helper of Send: the client model looks at Send's inlined view)
+				if cm := buildClientModel(p, ro); sendConn == "" && cm.Send != nil && cm.SendBuilt == send && cm.Write != nil {
+					sendConn = strip(T.T(recvOf(CallSite{Instr: cm.Write, Common: &cm.Write.Call, Fn: cm.Send})))
+				}
 			}
 			n := 0
-			for _, cl := range up.AnonFuncs {
+			// the receive function(s) Upgrade hands out: its function literals, or a method of the connection returned as
+			// a method value bound to Upgrade's own receiver (`return c.receiveUpgrade, nil`)
+			recvFns := append([]*ssa.Function{}, up.AnonFuncs...)
+			for _, rv := range returnedValues(up, 0) {
+				mc, ok := rv.Val.(*ssa.MakeClosure)
+				if !ok {
+					continue
+				}
+				w, _ := mc.Fn.(*ssa.Function)
+				if w == nil || !strings.HasPrefix(w.Synthetic, "bound method wrapper for ") || len(mc.Bindings) != 1 || mc.Bindings[0] != ssa.Value(up.Params[0]) {
+					continue
+				}
+				for _, cs := range callsIn(w, false) {
+					if m := staticTarget(cs.Common); m != nil && p.InRepo(m) {
+						recvFns = append(recvFns, p.Inlined(m, func(c *ssa.Function) bool {
+							return fnPkgPath(c) != pkgVarlink || c.Object() != nil && c.Object().Exported()
+						}))
+					}
+				}
+			}
+			for _, cl := range recvFns {
 				for _, b := range cl.Blocks {
 					for _, in := range b.Instrs {
 						ret, ok := in.(*ssa.Return)
@@ -240,7 +264,7 @@ func runC18(r *Run, p *Prog) {
 							if send != nil && len(send.Params) > 0 {
 								pfx := "param:" + send.Params[0].Name() + "."
 								if strings.HasPrefix(sendConn, pfx) {
-									want = "param:" + rootRecvName(up) + "." + strings.TrimPrefix(sendConn, pfx)
+									want = "param:" + rootRecvName(cl) + "." + strings.TrimPrefix(sendConn, pfx)
 								}
 							}
 							r.Ob("U2", shortName(cl), "Upgrade hands out "+got, ret.Pos(), got == want && sendConn != "",
